@@ -333,7 +333,7 @@ Proof.
   eapply in_struct_cells. eassumption.
 Qed.
 
-(* [T1] stated in full; proved below for the pointer skeleton (cparse_enc_partial) *)
+(* [T1] the full statement (proved with the hypotheses made explicit as CanonProofs3.cdecode_canon) *)
 Definition cparse_enc_statement : Prop :=
   forall v, wfv v = true -> forall bs, canon v = Some bs ->
   cdecode (S (vdepth (norm v))) bs = Some (norm v).
